@@ -10,6 +10,8 @@
 //	    stream (chunks "+"-joined, hex), tail (eof | eofl = EOF returned with the last chunk |
 //	    err = sticky read error after the data | open = the opener fails), tables, observation
 //	    observation = <status>/<node dump | ->/<x raw hex | ->
+//	id, "bload", ... as "load", for LARGE blocks (1 / 2 / 4 MiB ± 1): byte strings travel under
+//	    names (lib/link_big.go), and dag-cbor is modelled through D tables like the JSON codecs
 //	id, "store", proto, holder, value, wopen (0|1), cap (-1 | writer fails once more than cap bytes
 //	    would have been written, and keeps failing), sched ("-" | per-Write actions of the storage
 //	    writer, ","-separated: o = accept, f = fail this call only, s<n> = short write of n bytes),
@@ -53,11 +55,15 @@ func b2s(b bool) string {
 
 // ---- load cases
 
+// bigMode: the cases being emitted are large-block cases ("bload" records)
+var bigMode bool
+var bigTables = map[string]string{}
+
 func loadCase(out *lib.Out, id string, form byte, trusted bool, linkBin string, chunks [][]byte, tail string) {
 	l, err := lib.LkLinkFromBinary(linkBin)
 	stream := lib.LkChunksText(chunks)
 	if err != nil {
-		out.Case(id, "load", string(form), b2s(trusted), lib.Hex(linkBin), stream, tail, "", "badlink")
+		out.Case(id, "load", string(form), b2s(trusted), lib.LkHex(linkBin), stream, tail, "", "badlink")
 		return
 	}
 	pfx := l.(cidlink.Link).Prefix()
@@ -65,11 +71,34 @@ func loadCase(out *lib.Out, id string, form byte, trusted bool, linkBin string, 
 	for _, c := range chunks {
 		data = append(data, c...)
 	}
-	tab := lib.NewLkTables()
-	tab.Hasher(pfx.MhType)
-	tab.Hash(pfx.MhType, data)
-	if impl, ok := lib.LkGlobalReg().Dec[pfx.Codec]; ok {
-		tab.Decode(impl, data)
+	if !bigMode {
+		lib.LkRegisterConcat(chunks)
+	}
+	kind := "load"
+	var tabText string
+	if bigMode {
+		kind = "bload"
+		key := linkBin + "|" + stream
+		if t, ok := bigTables[key]; ok {
+			tabText = t // hashed and decoded once per block variant, not once per load function
+		} else {
+			tab := lib.NewLkTables()
+			tab.Hasher(pfx.MhType)
+			tab.Hash(pfx.MhType, data)
+			if pfx.Codec == lib.LkDagCbor {
+				tab.Decode(lib.LkDagCborT, data)
+			}
+			tabText = tab.Text()
+			bigTables[key] = tabText
+		}
+	} else {
+		tab := lib.NewLkTables()
+		tab.Hasher(pfx.MhType)
+		tab.Hash(pfx.MhType, data)
+		if impl, ok := lib.LkGlobalReg().Dec[pfx.Codec]; ok {
+			tab.Decode(impl, data)
+		}
+		tabText = tab.Text()
 	}
 
 	lsys := cidlink.DefaultLinkSystem()
@@ -81,7 +110,11 @@ func loadCase(out *lib.Out, id string, form byte, trusted bool, linkBin string, 
 		// fresh copies: nothing the callee does to the chunks can leak into the next case
 		cp := make([][]byte, len(chunks))
 		for i, c := range chunks {
-			cp[i] = append([]byte(nil), c...)
+			if bigMode {
+				cp[i] = c // (large blocks: not copied, checked against their name afterwards instead)
+			} else {
+				cp[i] = append([]byte(nil), c...)
+			}
 		}
 		return &lib.LkReader{Chunks: cp, Fail: tail == "err", EOFWithLast: tail == "eofl"}, nil
 	}
@@ -113,13 +146,98 @@ func loadCase(out *lib.Out, id string, form byte, trusted bool, linkBin string, 
 	}
 	ns, rs := "-", "-"
 	if n != nil {
-		ns = lib.Dump(n)
+		ns = lib.LkDump(n)
 	}
 	if rawReturned {
-		rs = "x" + lib.Hex(string(raw))
+		rs = "x" + lib.LkHexBytes(raw)
 	}
 	obs := lib.LkErrClass(err, "decode") + "/" + ns + "/" + rs
-	out.Case(id, "load", string(form), b2s(trusted), lib.Hex(linkBin), stream, tail, tab.Text(), obs)
+	if bigMode && lib.LkChunksText(chunks) != stream {
+		obs += "/!stream-modified"
+	}
+	out.Case(id, kind, string(form), b2s(trusted), lib.LkHex(linkBin), stream, tail, tabText, obs)
+}
+
+// ---- large blocks
+
+// bigCases: raw and dag-cbor (a bytes node) blocks whose size sits at the powers of two people use as
+// block-size caps, -1 / exact / +1: intact, one byte appended, truncated by one byte, a bit flipped
+// in the last byte and 4 KiB before the end; through the four load functions.
+func bigCases(out *lib.Out, thorough bool) {
+	bigMode = true
+	defer func() { bigMode = false; bigTables = map[string]string{} }()
+	const fill = 0xAB
+	mib := []int{1, 2, 4}
+	if thorough {
+		mib = append(mib, 8, 16)
+	}
+	id := 0
+	for _, m := range mib {
+		for _, d := range []int{-1, 0, 1} {
+			size := m<<20 + d
+			for _, codec := range []uint64{lib.LkRaw, lib.LkDagCbor} {
+				if codec == lib.LkDagCbor && m > 4 {
+					continue // beyond the dag-cbor decoder's default allocation budget
+				}
+				// names of the block and of its damaged variants; for dag-cbor the block is
+				// 5a <len:4> <payload>, and the payload variants get names too (decode results)
+				head := ""
+				body := size
+				if codec == lib.LkDagCbor {
+					body = size - 5
+					head = "\x5a" + string([]byte{byte(body >> 24), byte(body >> 16), byte(body >> 8), byte(body)})
+				}
+				off := size - 1 - 4096 - len(head) // offset of the second flip, within the body
+				bodies := map[string]string{
+					"clean":    lib.LkRun(fill, body),
+					"trunc":    lib.LkRun(fill, body-1),
+					"fliplast": lib.LkRun(fill, body-1) + string([]byte{fill ^ 1}),
+					"flipmid":  lib.LkRun(fill, off) + string([]byte{fill ^ 0x10}) + lib.LkRun(fill, body-off-1),
+				}
+				for _, b := range bodies {
+					lib.LkRegisterBytes(b)
+				}
+				real := lib.LkRegisterBytes(head + bodies["clean"])
+				p := lib.LkProto{Version: 1, Codec: codec, MhType: 0x12, MhLen: -1}
+				c, err := p.LP().Prefix.Sum(real)
+				if err != nil {
+					continue
+				}
+				link := c.KeyString()
+				variants := []struct {
+					name   string
+					chunks []string
+					tail   string
+				}{
+					{"clean", []string{head + bodies["clean"]}, "eof"},
+					{"ext", []string{head + bodies["clean"], "\x01"}, "eof"},
+					{"trunc", []string{head + bodies["trunc"]}, "eof"},
+					{"fliplast", []string{head + bodies["fliplast"]}, "eof"},
+					{"flipmid", []string{head + bodies["flipmid"]}, "eof"},
+				}
+				for _, v := range variants {
+					var chunks [][]byte
+					for _, nm := range v.chunks {
+						chunks = append(chunks, lib.LkRegisterBytes(nm))
+					}
+					lib.LkRegisterConcat(chunks)
+					fs := forms
+					if d != 0 && !thorough {
+						// quick tier: all four functions and all damages at the exact sizes; at -1 / +1
+						// Fill on the intact, extended and truncated block
+						if strings.HasPrefix(v.name, "flip") {
+							continue
+						}
+						fs = []byte("f")
+					}
+					for _, f := range fs {
+						id++
+						loadCase(out, fmt.Sprintf("big%d.%s.%dMiB%+d.%x.%c", id, v.name, m, d, codec, f), f, false, link, chunks, v.tail)
+					}
+				}
+			}
+		}
+	}
 }
 
 // ---- NodeReifier scenarios
@@ -171,10 +289,10 @@ func loadVia(lsys *linking.LinkSystem, form byte, l datamodel.Link) string {
 	}
 	ns, rs := "-", "-"
 	if n != nil {
-		ns = lib.Dump(n)
+		ns = lib.LkDump(n)
 	}
 	if rawReturned {
-		rs = "x" + lib.Hex(string(raw))
+		rs = "x" + lib.LkHex(string(raw))
 	}
 	if n != nil || rawReturned {
 		keep = append(keep, &retained{n, raw, rawReturned, ns, string(raw)})
@@ -268,7 +386,7 @@ func reifyCase(out *lib.Out, id string, form byte, trusted bool, rmode string, p
 	}
 	var chg []string
 	for _, k := range keep {
-		if k.node != nil && lib.Dump(k.node) != k.nodeWas {
+		if k.node != nil && lib.LkDump(k.node) != k.nodeWas {
 			chg = append(chg, "node")
 		}
 		if k.hasRaw && string(k.raw) != k.rawWas {
@@ -283,9 +401,9 @@ func reifyCase(out *lib.Out, id string, form byte, trusted bool, rmode string, p
 	}
 	var ks []string
 	for _, k := range kids {
-		ks = append(ks, fmt.Sprintf("%s~%s~%s~%c~%c", lib.Hex(k.link), lib.LkChunksText(k.chunks), k.tail, k.now, k.later))
+		ks = append(ks, fmt.Sprintf("%s~%s~%s~%c~%c", lib.LkHex(k.link), lib.LkChunksText(k.chunks), k.tail, k.now, k.later))
 	}
-	out.Case(id, "reify", string(form), b2s(trusted), rmode, lib.Hex(plink), lib.LkChunksText(pchunks), ptail,
+	out.Case(id, "reify", string(form), b2s(trusted), rmode, lib.LkHex(plink), lib.LkChunksText(pchunks), ptail,
 		strings.Join(ks, ";"), tab.Text(), strings.Join(obs, ";"))
 }
 
@@ -414,10 +532,10 @@ func storeCase(out *lib.Out, id string, p lib.LkProto, holder string, v *lib.Val
 	})
 	ls, bs := "-", "-"
 	if !lib.IsPanic(err) && l != nil {
-		ls = lib.Hex(l.Binary())
+		ls = lib.LkHex(l.Binary())
 	}
 	if err == nil && invoked {
-		bs = "x" + lib.Hex(string(committed))
+		bs = "x" + lib.LkHex(string(committed))
 	}
 	// digests of whatever reached the writer (a damaged block that was committed must be checkable)
 	if wr != nil {
@@ -427,7 +545,7 @@ func storeCase(out *lib.Out, id string, p lib.LkProto, holder string, v *lib.Val
 	cerr := lib.Safely(func() error { var e error; cl, e = lsys.ComputeLink(p.LP(), n); return e })
 	cls := "-"
 	if !lib.IsPanic(cerr) && cl != nil {
-		cls = lib.Hex(cl.Binary())
+		cls = lib.LkHex(cl.Binary())
 	}
 	obs := lib.LkErrClass(err, "encode") + "/" + ls + "/commit=" + b2s(invoked) + "/" + bs + "/cl:" + lib.LkErrClass(cerr, "encode") + ":" + cls
 	out.Case(id, "store", p.Spec(), holder, v.Text(), b2s(wopen), fmt.Sprint(capacity), sched, b2s(commitErr), tab.Text(), obs)
@@ -724,7 +842,8 @@ func main() {
 		for _, line := range lib.ReadLines(fl.Replay) {
 			f := strings.Split(line, "\t")
 			switch {
-			case len(f) >= 8 && f[1] == "load":
+			case len(f) >= 8 && (f[1] == "load" || f[1] == "bload"):
+				bigMode = f[1] == "bload"
 				loadCase(out, f[0], f[2][0], f[3] == "1", lib.UnHex(f[4]), lib.LkParseChunks(f[5]), f[6])
 			case len(f) >= 10 && f[1] == "reify":
 				var ks []kid
@@ -839,6 +958,7 @@ func main() {
 	for _, f := range forms {
 		loadCase(out, fmt.Sprintf("longdigest.%c", f), f, false, long, lib.LkSplit([]byte{0x01}), "eof")
 	}
+	bigCases(out, thorough)
 	// NodeReifier scenarios: parents linking to groups of corpus blocks
 	for gi := 0; gi+3 <= len(blocks) && gi < 3*12; gi += 3 {
 		reifyCases(out, r.Fork(), gi/3, blocks[gi:gi+3], thorough)
